@@ -1576,6 +1576,32 @@ def r16_7(ctx):
             ctx.ok("detect_from only when no directive is open", site=ctx.site(it, bb))
 
 
+@rule("C15", "R15.8", floor=1)
+def r15_8(ctx):
+    """the marker is consumed exactly once: detect_from applies no repeated-strip / replace API (`trim_start_matches`, `trim_matches`,
+    `replace` ..) with the `TXTPP#` marker as its pattern — `TXTPP#TXTPP#run` is ordinary text, the name must follow the FIRST marker"""
+    lib = ctx.lib
+    df = body(ctx, "detect_from")
+    if not df:
+        return
+    REP = re.compile(r"^std::str::<impl str>::(trim_start_matches|trim_left_matches|trim_matches|trim_end_matches|trim_right_matches|replace|replacen|"
+                     r"split|rsplit|split_terminator|matches|match_indices|rmatch_indices)$")
+    bad = []
+    n = 0
+    for b in [df] + lib.closures_of(df):
+        for bb, t in b.calls():
+            if REP.match(C.callee_name(t) or "") and len(t["args"]) > 1:
+                n += 1
+                if any(l.kind == "const" and (l.data.get("named", "").endswith("TXTPP_HASH") or C.op_const(l.data) == '"TXTPP#"') for l in C.trace(b, t["args"][1])):
+                    bad.append((b, bb, C.callee_name(t)))
+    if bad:
+        b, bb, nm = bad[0]
+        ctx.violation([df.name, "marker-stripped-repeatedly", nm], "detect_from applies %s with the TXTPP# marker: several adjacent markers are consumed, "
+                      "the directive name must follow the first one" % nm.rsplit("::", 1)[-1], site=ctx.site(b, bb))
+    else:
+        ctx.ok("the marker is not the pattern of any repeated-strip / replace call (%d such calls)" % n, site=ctx.site(df, 0))
+
+
 @rule("C15", "R15.7", floor=2)
 def r15_7(ctx):
     """a detected or continued directive is always kept open: in iterate_directive, from the `Some` edge of detect_from's result and from
@@ -2008,4 +2034,106 @@ def r01_11(ctx):
     shell as one argument, and its stdout is the directive output (= C17 R17.2)"""
     import rules_run
     rules_run.r17_2(ctx)
+
+
+def _cli_field_flow(ctx, fn_suffix, pairs):
+    """in the CLI function `fn_suffix`, config.<dst> is assigned exactly the flag self.<src> (moved, cloned; not negated, not combined)"""
+    binp = ctx.bin
+    if binp is None:
+        ctx.anchor_missing("binary crate facts")
+        return
+    b = ctx.role(binp, fn_suffix)
+    if not b:
+        return
+    for dst, src in pairs:
+        stores = [(bb, st) for bb, si, st in b.stmts() if st["k"] == "assign" and st["lhs"]["p"] and st["lhs"]["p"][-1].get("name") == dst]
+        stores_c = [(bb, t) for bb, t in b.calls() if t["dest"]["p"] and t["dest"]["p"][-1].get("name") == dst]
+        if not stores and not stores_c:
+            ctx.violation([fn_suffix, dst, "unset"], "the CLI no longer passes `%s` on to Config.%s" % (src, dst), site=ctx.site(b, 0))
+            continue
+        copies = lambda tt: C.is_transparent(tt) or T.item_preserving(C.callee_name(tt)) or \
+            (C.callee_name(tt) or "").endswith(("::to_vec", "::to_owned", "::clone", "::to_string", "::into"))
+        for bb, st in stores:
+            lv = C.trace(b, st["rv"]["op"], through_fields=True, transparent=copies) if st["rv"]["k"] == "use" else []
+            good = bool(lv) and any(l.kind == "field" and has_field([l], src) for l in lv) and \
+                all((l.kind == "field" and has_field([l], src) and not l.neg) or l.kind == "param" for l in lv)
+            if good:
+                ctx.ok("Config.%s = flag `%s`" % (dst, src), site=ctx.site(b, bb))
+            else:
+                ctx.violation([fn_suffix, dst], "Config.%s is not assigned the `%s` flag as given (%s)" % (dst, src, [repr(l) for l in lv][:3] or C.rv_str(st["rv"], b)),
+                              site=ctx.site(b, bb))
+        for bb, t in stores_c:
+            lv = [l for a in t["args"] for l in C.trace(b, a, through_fields=True, transparent=copies)]
+            if C.callee_name(t).endswith(("::clone", "::to_vec", "::to_owned", "::collect")) and lv and all((l.kind == "field" and has_field([l], src)) or l.kind == "param" for l in lv):
+                ctx.ok("Config.%s = flag `%s` (clone)" % (dst, src), site=ctx.site(b, bb))
+            else:
+                ctx.violation([fn_suffix, dst], "Config.%s is computed by %s, not copied from the `%s` flag" % (dst, C.callee_name(t), src), site=ctx.site(b, bb))
+
+
+@rule("C11", "R11.11", floor=2)
+def r11_11(ctx):
+    """CLI plumbing: Config.recursive is the `--recursive` flag as given and Config.inputs the positional arguments as given (an inverted
+    or defaulted flag changes which files are picked up)"""
+    _cli_field_flow(ctx, "txtpp::Flags::apply_to", [("recursive", "recursive"), ("inputs", "inputs")])
+
+
+@rule("C16", "R16.9", floor=2)
+def r16_9(ctx):
+    """the lines the processor sees are the source's lines as `BufRead::lines()` yields them: IOCtx.input is built from `lines()` of the
+    opened input file and nothing else (no cached, trimmed or re-assembled first line chained in front), and next_line hands out the
+    items of that iterator unmodified"""
+    lib = ctx.lib
+    nw = body(ctx, "ioctx_new")
+    nl = body(ctx, "next_line")
+    LINES_IO = ("std::io::BufRead::lines",)
+    if nw:
+        ags = aggregates(nw, ADT["IOCtx"]) if "IOCtx" in ADT else []
+        if not ags:
+            ags = [(bb, st) for bb, si, st in nw.stmts() if st["k"] == "assign" and st["rv"]["k"] == "aggregate" and st["rv"]["agg"]["k"] == "adt"
+                   and "input" in (st["rv"]["agg"].get("fields") or [])]
+        if not ags:
+            ctx.anchor_missing("IOCtx { input, .. } aggregate in IOCtx::new")
+        for bb, st in ags:
+            flds = st["rv"]["agg"]["fields"]
+            if "input" not in flds:
+                continue
+            at = piece_atoms(lib, nw, st["rv"]["ops"][flds.index("input")])
+            if at and at <= {("call", n) for n in LINES_IO}:
+                ctx.ok("IOCtx.input = lines() of the opened source", site=ctx.site(nw, bb))
+            else:
+                ctx.violation([nw.name, "line-source"], "the line iterator of IOCtx is not just BufRead::lines() of the source: %s" % sorted(map(str, at))[:4],
+                              site=ctx.site(nw, bb))
+    if nl:
+        import tables as T
+        lv = C.trace(nl, {"l": 0, "p": []}, through_fields=True, through_decorators=True, transparent=lambda tt: C.is_transparent(tt) or T.item_preserving(C.callee_name(tt)) or
+                     C.callee_name(tt) in ("std::option::Option::<T>::map", "std::result::Result::<T, E>::map_err", "std::option::Option::<std::result::Result<T, E>>::transpose"))
+        bad = [l for l in lv if not (l.kind == "field" and has_field([l], "input")) and l.kind not in ("param",) and
+               not (l.kind == "const" and C.op_const(l.data) is None)]
+        bad = [l for l in bad if l.kind == "call" or (l.kind == "const" and "str" in str(l.data.get("ty", "")))]
+        if has_field(lv, "input") and not bad:
+            ctx.ok("next_line yields the items of IOCtx.input", site=ctx.site(nl, 0))
+        else:
+            ctx.violation([nl.name, "line-items"], "next_line does not simply hand out the items of IOCtx.input: %s" % [repr(l) for l in bad][:3], site=ctx.site(nl, 0))
+
+
+@rule("C01", "R01.12", floor=3)
+def r01_12(ctx):
+    """README `tag`: tags are replaced left to right in the SOURCE line, a tag name inside another tag's content is not replaced, used tags
+    are removed (= C14 R14.6: occurrences are located once, in the line as read, and exactly the substituted tags leave the store)"""
+    r14_6(ctx)
+
+
+@rule("C16", "R16.10", floor=3)
+def r16_10(ctx):
+    """text produced by a directive and stored through `tag` is inert: it is never searched for tag names again after it was spliced in
+    (= C14 R14.6)"""
+    r14_6(ctx)
+
+
+@rule("C11", "R11.12", floor=2)
+def r11_12(ctx):
+    """the transitive .txtpp dependencies of the requested sources are processed in every building / verifying mode: the first pass reports
+    dependencies whatever the Mode (= C02 R02.12)"""
+    import rules_sched
+    rules_sched.r02_12(ctx)
 
